@@ -1,6 +1,7 @@
 SPECIFICATION GSpec
 CONSTANTS
   Many = 8
+  W0Configs <- GenThoroughW0
   W1Configs <- GenThoroughW1
   W2Configs <- GenThoroughW2
 INVARIANTS Emit TableOK
